@@ -10,7 +10,25 @@
    Prove; verdict from the real run only.
 """
 import os
+import re
 from vlib import core
+
+
+
+def final_coverage_zero(r):
+    """actions with count 0 in the *final* coverage report only: with -coverage 1 TLC also prints interim
+    reports every minute, in which actions the breadth-first search has not reached yet show 0:0."""
+    mark = "The coverage statistics at"
+    at = r.out.rfind(mark)
+    if at < 0:
+        raise core.MachineryError("no coverage report in the TLC output")
+    z = []
+    for m in re.finditer(r"^<(\w+) line .*?>: (\d+):(\d+)$", r.out[at:], re.M):
+        if int(m.group(2)) == 0 and int(m.group(3)) == 0:
+            z.append(m.group(1))
+    taken = {m.group(1) for m in re.finditer(r"^<(\w+) line .*?>: (\d+):(\d+)$", r.out[at:], re.M)
+             if int(m.group(2)) > 0 or int(m.group(3)) > 0}
+    return [a for a in z if a not in taken]      # an action split into several disjuncts counts as taken if one is
 
 
 def run(ctx):
@@ -19,7 +37,7 @@ def run(ctx):
     r = ctx.tlc("SuffrageChain", cfg, args=[] if quick else ["-coverage", "1"], timeout=1500)
     ctx.extra["mc_fixed"] = {"cfg": cfg, "distinct": r.distinct, "generated": r.generated, "wall_s": round(r.wall, 1)}
     if not quick:
-        zero = [z for z in r.coverage_zero() if z[0].isupper() and z not in ("TypeOK",)]
+        zero = [z for z in final_coverage_zero(r) if z[0].isupper() and z not in ("TypeOK",)]
         acts = {"Keep", "ForeignTree", "ExtendedTree", "ReRootCut", "PathTamper", "ForkState", "ForgedStateOwnTree",
                 "PrevGap", "PrevFork", "PrevStale", "PrevFuture", "PrevNil", "PrevAtGenesis", "MapFork",
                 "MapBadSignature", "SwapState", "MapOtherHeight", "Verify", "Forge"}
